@@ -135,8 +135,27 @@ def regress(repo, only=None):
   print('REGRESS done: %d not detected' % bad, flush=True)
 
 
+def install_vizboot():
+  """(Re)creates /tmp/vizboot: the bootstrap the seeded demonstrations and the sub-agent prompts refer to."""
+  import shutil
+  here = os.path.dirname(os.path.abspath(__file__))
+  sys.path.insert(0, here)
+  from vfw import protogen
+  protogen.ensure()
+  dst = '/tmp/vizboot'
+  shutil.rmtree(dst, ignore_errors=True)
+  os.makedirs(dst)
+  shutil.copy(os.path.join(here, 'seeded', '_vizboot', 'vizboot.py'), dst)
+  shutil.copytree(protogen.OUT, os.path.join(dst, 'gen'))
+  shutil.copytree(os.path.join(here, 'vfw', 'shims'), os.path.join(dst, 'shims'))
+  print('installed', dst)
+
+
 if __name__ == '__main__':
   cmd = sys.argv[1]
+  if cmd == 'vizboot':
+    install_vizboot()
+    sys.exit(0)
   if cmd == 'regress':
     regress(sys.argv[2], sys.argv[3:])
     sys.exit(0)
